@@ -300,10 +300,10 @@ Ltac brk := repeat match goal with
   end.
 
 Ltac unf := unfold step, step_unfixed, step_gen, lift, server_chunk, typed, launch, helper_out, helper_eof,
-  helper_readerr, helper_exit, cleanup_fire, handle_server_output, handle_error, handle_error_gen, reader_end,
+  helper_readerr, helper_exit, cleanup_fire, grace_begin, handle_server_output, handle_error, handle_error_gen, reader_end,
   ensure_over_and_out, reset_cleanup, reset_client, reset_server, andthen, to_helper, is_transferring, new_session in *.
 
-Ltac zsimpl := cbn [fst snd zs ptr upload cf sf eo stopped cleaned hp reader lpend tcu tcl tsv ksched
+Ltac zsimpl := cbn [fst snd zs ptr upload cf sf eo stopped cleaned hp reader lpend tcu tcl tsv ksched gbegun set_gbegun
   set_cf set_sf set_eo set_stopped set_cleaned set_hp set_reader set_lpend set_tcu set_tcl set_tsv set_ksched
   app negb andb orb] in *.
 
@@ -313,8 +313,8 @@ Ltac crush := unf; zsimpl; brk; zsimpl.
 Lemma start_only_on_header : forall fixed f e up, In (OStart up) (snd (step_gen fixed f e)) ->
   exists buf, e = EvServer buf /\ detect_zmodem buf = Some up.
 Proof.
-  intros fixed [z p] e up H. destruct z as [u c1 s1 e1 st cl h rd lp t1 t2 t3 ks].
-  destruct e as [buf|buf|r|buf| | |code| | |]; revert H.
+  intros fixed [z p] e up H. destruct z as [u c1 s1 e1 st cl h rd lp t1 t2 t3 ks gb].
+  destruct e as [buf|buf|r|buf| | |code| | | |]; revert H.
   - unf; zsimpl. intros H. exists buf. split; [reflexivity|].
     destruct (detect_zmodem buf) as [up'|] eqn:Hd.
     + assert (up' = up); [|subst; reflexivity].
@@ -322,6 +322,8 @@ Proof.
         intros H; repeat (destruct H as [H|H]; try discriminate); try contradiction; congruence.
     + exfalso. revert H. brk; zsimpl; cbn [In]; rewrite ?in_app_iff; cbn [In];
         intros H; repeat (destruct H as [H|H]; try discriminate); try contradiction.
+  - crush; cbn [In]; rewrite ?in_app_iff; cbn [In]; intros H;
+      repeat (destruct H as [H|H]; try discriminate); contradiction.
   - crush; cbn [In]; rewrite ?in_app_iff; cbn [In]; intros H;
       repeat (destruct H as [H|H]; try discriminate); contradiction.
   - crush; cbn [In]; rewrite ?in_app_iff; cbn [In]; intros H;
@@ -349,7 +351,7 @@ Lemma start_on_header : forall fixed f buf up, detect_zmodem buf = Some up -> pa
   step_gen fixed f (EvServer buf) =
     (mkF (new_session up) true, (if ptr f then [OShow] else []) ++ [OForward; OTerm buf; OHide; OStart up]).
 Proof.
-  intros fixed [z p] buf up Hd Hp. destruct z as [u c1 s1 e1 st cl h rd lp t1 t2 t3 ks].
+  intros fixed [z p] buf up Hd Hp. destruct z as [u c1 s1 e1 st cl h rd lp t1 t2 t3 ks gb].
   unfold passthrough in Hp. zsimpl. unf; zsimpl. rewrite Hd.
   destruct p; [|reflexivity]. destruct Hp as [Hp|[H1 H2]]; [discriminate|]. subst. reflexivity.
 Qed.
@@ -358,7 +360,7 @@ Lemma no_header_no_start : forall fixed f buf, detect_zmodem buf = None -> passt
   step_gen fixed f (EvServer buf) =
     (mkF (zs f) false, (if ptr f then [OShow] else []) ++ [OForward; OTerm buf]).
 Proof.
-  intros fixed [z p] buf Hd Hp. destruct z as [u c1 s1 e1 st cl h rd lp t1 t2 t3 ks].
+  intros fixed [z p] buf Hd Hp. destruct z as [u c1 s1 e1 st cl h rd lp t1 t2 t3 ks gb].
   unfold passthrough in Hp. zsimpl. unf; zsimpl. rewrite Hd.
   destruct p; [|reflexivity]. destruct Hp as [Hp|[H1 H2]]; [discriminate|]. subst. reflexivity.
 Qed.
@@ -367,7 +369,7 @@ Qed.
 Lemma input_flows : forall fixed f buf, passthrough f ->
   step_gen fixed f (EvInput buf) = (f, [OServer buf; OInput true]).
 Proof.
-  intros fixed [z p] buf Hp. destruct z as [u c1 s1 e1 st cl h rd lp t1 t2 t3 ks].
+  intros fixed [z p] buf Hp. destruct z as [u c1 s1 e1 st cl h rd lp t1 t2 t3 ks gb].
   unfold passthrough in Hp. zsimpl. destruct p.
   - destruct Hp as [Hp|[H1 H2]]; [discriminate|]. subst. crush; try discriminate; reflexivity.
   - reflexivity.
@@ -377,7 +379,7 @@ Qed.
 Lemma swallow_rearms : forall fixed f buf, ptr f = true -> stopped (zs f) = true -> cleaned (zs f) = false ->
   step_gen fixed f (EvServer buf) = (mkF (set_tcu true (zs f)) true, [OClaim; OArm TCleanup]).
 Proof.
-  intros fixed [z p] buf Hp Hs Hc. destruct z as [u c1 s1 e1 st cl h rd lp t1 t2 t3 ks].
+  intros fixed [z p] buf Hp Hs Hc. destruct z as [u c1 s1 e1 st cl h rd lp t1 t2 t3 ks gb].
   zsimpl. subst. reflexivity.
 Qed.
 
@@ -385,7 +387,7 @@ Qed.
 Lemma input_swallowed : forall fixed f buf, ptr f = true -> stopped (zs f) = true -> cleaned (zs f) = false ->
   step_gen fixed f (EvInput buf) = (f, [OInput false]).
 Proof.
-  intros fixed [z p] buf Hp Hs Hc. destruct z as [u c1 s1 e1 st cl h rd lp t1 t2 t3 ks].
+  intros fixed [z p] buf Hp Hs Hc. destruct z as [u c1 s1 e1 st cl h rd lp t1 t2 t3 ks gb].
   zsimpl. subst. crush; try discriminate; reflexivity.
 Qed.
 
@@ -394,7 +396,7 @@ Qed.
 Definition terminating (f : fstate) (e : event) : Prop :=
   match e with
   | EvHelperExit _ => hp (zs f) = HRun
-  | EvLaunch LaunchFail | EvLaunch ChooserErr => lpend (zs f) = true
+  | EvLaunch LaunchFail | EvLaunch ChooserErr => lpend (zs f) = true /\ gbegun (zs f) = true
   | EvInput buf => buf = [Consts.zmodem_ctrl_c] /\ ptr f = true
   | EvClientFire => tcl (zs f) = true
   | EvServerFire => tsv (zs f) = true
@@ -416,11 +418,11 @@ Lemma cancel_sent : forall fixed f e, stopped (zs f) = false -> terminating f e 
   In OCancelServer (snd (step_gen fixed f e)) /\
   (helper_listening f e -> In OCancelHelper (snd (step_gen fixed f e)) /\ In OKill (snd (step_gen fixed f e))).
 Proof.
-  intros fixed [z p] e Hs Ht. destruct z as [u c1 s1 e1 st cl h rd lp t1 t2 t3 ks].
+  intros fixed [z p] e Hs Ht. destruct z as [u c1 s1 e1 st cl h rd lp t1 t2 t3 ks gb].
   unfold helper_listening. zsimpl. subst st.
-  destruct e as [buf|buf|r|buf| | |code| | |]; cbn [terminating] in Ht; zsimpl; try contradiction.
+  destruct e as [buf|buf|r|buf| | |code| | | |]; cbn [terminating] in Ht; zsimpl; try contradiction.
   - destruct Ht as [-> ->]. unf; zsimpl. change (list_eqb [zmodem_ctrl_c] [zmodem_ctrl_c]) with true. cbv iota. cs_fin.
-  - destruct r; try contradiction; subst lp; cs_fin.
+  - destruct r; try contradiction; destruct Ht as [Hl Hg]; subst lp gb; cs_fin.
   - subst rd. cs_fin.
   - subst h. cs_fin.
   - subst t2. cs_fin.
@@ -431,7 +433,7 @@ Qed.
 Lemma server_cancel_relayed : forall fixed f buf, ptr f = true -> stopped (zs f) = false -> hp (zs f) = HRun ->
   In (OHelper buf) (snd (step_gen fixed f (EvServer buf))) /\ In OClaim (snd (step_gen fixed f (EvServer buf))).
 Proof.
-  intros fixed [z p] buf Hp Hs Hh. destruct z as [u c1 s1 e1 st cl h rd lp t1 t2 t3 ks].
+  intros fixed [z p] buf Hp Hs Hh. destruct z as [u c1 s1 e1 st cl h rd lp t1 t2 t3 ks gb].
   zsimpl. subst. crush; try congruence; cbn [In]; rewrite ?in_app_iff; cbn [In]; split; auto 10.
 Qed.
 
@@ -442,7 +444,7 @@ Lemma server_cancel_early : forall fixed f buf, ptr f = true -> stopped (zs f) =
   ptr f' = false /\ stopped (zs f') = true /\ cleaned (zs f') = true /\
   In (OTerm buf) (snd (step_gen fixed f (EvServer buf))).
 Proof.
-  intros fixed [z p] buf Hp Hs Hh Hc. destruct z as [u c1 s1 e1 st cl h rd lp t1 t2 t3 ks].
+  intros fixed [z p] buf Hp Hs Hh Hc. destruct z as [u c1 s1 e1 st cl h rd lp t1 t2 t3 ks gb].
   zsimpl. subst. unf; zsimpl. rewrite (detect_veto buf Hc).
   assert (Hv : has_cancel buf || has_cannot buf = true) by (destruct Hc as [-> | ->]; [reflexivity | apply Bool.orb_true_r]).
   rewrite Hv. zsimpl. cbn [In]. auto 8.
@@ -469,11 +471,11 @@ Ltac inv_fin :=
 
 Lemma inv_step : forall f e, inv (zs f) -> inv (zs (fst (step f e))).
 Proof.
-  intros [z p] e [Hx Hy]. destruct z as [u c1 s1 e1 st cl h rd lp t1 t2 t3 ks]. zsimpl.
+  intros [z p] e [Hx Hy]. destruct z as [u c1 s1 e1 st cl h rd lp t1 t2 t3 ks gb]. zsimpl.
   assert (Hx' : match h with HExit _ => st = true | _ => True end)
     by (destruct h; auto; eapply Hx; reflexivity).
   clear Hx.
-  destruct e as [buf|buf|r|buf| | |code| | |]; crush; try congruence; inv_fin.
+  destruct e as [buf|buf|r|buf| | |code| | | |]; crush; try congruence; inv_fin.
 Qed.
 
 Lemma run_app : forall fixed evs1 evs2 f,
@@ -512,8 +514,8 @@ Ltac wd_fin := unfold winding_down in *; zsimpl;
 (* nothing but the timer itself disarms the timer; nothing un-stops or un-cleans the session *)
 Lemma quiet_keeps : forall f e, quiet e -> winding_down (zs f) -> winding_down (zs (fst (step f e))).
 Proof.
-  intros [z p] e Hq Hw. destruct z as [u c1 s1 e1 st cl h rd lp t1 t2 t3 ks].
-  destruct e as [buf|buf|r|buf| | |code| | |]; cbn [quiet] in Hq; try contradiction; wd_fin.
+  intros [z p] e Hq Hw. destruct z as [u c1 s1 e1 st cl h rd lp t1 t2 t3 ks gb].
+  destruct e as [buf|buf|r|buf| | |code| | | |]; cbn [quiet] in Hq; try contradiction; wd_fin.
 Qed.
 
 Lemma quiet_run_keeps : forall qs f, Forall quiet qs -> winding_down (zs f) -> winding_down (zs (fst (run f qs))).
@@ -536,13 +538,13 @@ Qed.
 Lemma fire_cleans : forall f, winding_down (zs f) ->
   stopped (zs (fst (step f EvCleanupFire))) = true /\ cleaned (zs (fst (step f EvCleanupFire))) = true.
 Proof.
-  intros [z p] Hw. destruct z as [u c1 s1 e1 st cl h rd lp t1 t2 t3 ks]. wd_fin.
+  intros [z p] Hw. destruct z as [u c1 s1 e1 st cl h rd lp t1 t2 t3 ks gb]. wd_fin.
 Qed.
 
 (* the helper's exit (which the scheduled kill forces) arms the timer *)
 Lemma exit_arms : forall f c, hp (zs f) = HRun -> winding_down (zs (fst (step f (EvHelperExit c)))).
 Proof.
-  intros [z p] c Hh. destruct z as [u c1 s1 e1 st cl h rd lp t1 t2 t3 ks]. zsimpl. subst. wd_fin.
+  intros [z p] c Hh. destruct z as [u c1 s1 e1 st cl h rd lp t1 t2 t3 ks gb]. zsimpl. subst. wd_fin.
 Qed.
 
 (* until it exits, a stopped session with a running helper keeps the kill scheduled *)
@@ -550,8 +552,8 @@ Lemma helper_pending_stable : forall f e, (forall c, e <> EvHelperExit c) -> qui
   stopped (zs f) = true -> hp (zs f) = HRun -> ksched (zs f) = true ->
   let z' := zs (fst (step f e)) in stopped z' = true /\ hp z' = HRun /\ ksched z' = true.
 Proof.
-  intros [z p] e Hne Hq Hs Hh Hk. destruct z as [u c1 s1 e1 st cl h rd lp t1 t2 t3 ks]. zsimpl. subst.
-  destruct e as [buf|buf|r|buf| | |code| | |]; cbn [quiet] in Hq; try contradiction;
+  intros [z p] e Hne Hq Hs Hh Hk. destruct z as [u c1 s1 e1 st cl h rd lp t1 t2 t3 ks gb]. zsimpl. subst.
+  destruct e as [buf|buf|r|buf| | |code| | | |]; cbn [quiet] in Hq; try contradiction;
     try (exfalso; eapply Hne; reflexivity); crush; try congruence; auto.
 Qed.
 
@@ -575,9 +577,9 @@ Qed.
 (* ---- the pinned upstream code (without the fix) ---- *)
 
 Definition hdr_download : list N := [42; 42; 24; 66; 48; 48; 48; 48; 48; 48; 48; 48; 48; 48; 48; 48; 48; 48].
-Definition stuck_events (r : launch_res) : list event := [EvServer hdr_download; EvLaunch r].
+Definition stuck_events (r : launch_res) : list event := [EvServer hdr_download; EvGraceBegin; EvLaunch r].
 Definition stuck_state : fstate :=
-  mkF (mkZ false false false true true false HNone false false false false false false) true.
+  mkF (mkZ false false false true true false HNone false false false false false false true) true.
 
 Lemma unfixed_reaches_stuck :
   fst (run_unfixed idle (stuck_events LaunchFail)) = stuck_state /\
@@ -586,7 +588,7 @@ Proof. split; vm_compute; reflexivity. Qed.
 
 (* a second way into the same state: Ctrl-C before the helper has been started *)
 Lemma unfixed_reaches_stuck_ctrl_c :
-  fst (run_unfixed idle [EvServer hdr_download; EvInput [Consts.zmodem_ctrl_c]; EvLaunch LaunchOk]) = stuck_state.
+  fst (run_unfixed idle [EvServer hdr_download; EvGraceBegin; EvInput [Consts.zmodem_ctrl_c]; EvLaunch LaunchOk]) = stuck_state.
 Proof. vm_compute; reflexivity. Qed.
 
 Lemma stuck_not_settled : stopped (zs stuck_state) = true /\ ~ settled (zs stuck_state).
@@ -599,7 +601,7 @@ Lemma stuck_step : forall e, quiet e ->
   fst (step_unfixed stuck_state e) = stuck_state /\
   (snd (step_unfixed stuck_state e) = [] \/ snd (step_unfixed stuck_state e) = [OInput false]).
 Proof.
-  intros e Hq. destruct e as [buf|buf|r|buf| | |code| | |]; cbn [quiet] in Hq; try contradiction;
+  intros e Hq. destruct e as [buf|buf|r|buf| | |code| | | |]; cbn [quiet] in Hq; try contradiction;
     unfold stuck_state; crush; try congruence; auto.
 Qed.
 
@@ -626,3 +628,191 @@ Lemma fixed_not_stuck : forall r, r = LaunchFail \/ r = ChooserErr ->
   tcu (zs (fst (run idle (stuck_events r)))) = true /\
   cleaned (zs (fst (run idle (stuck_events r ++ [EvCleanupFire])))) = true.
 Proof. intros r [-> | ->]; split; vm_compute; reflexivity. Qed.
+
+(* ---- the grace period of handleZmodemEvent ("the server may fail immediately") ---- *)
+
+(* a session that is over and that the filter has dropped: nothing of it is left *)
+Definition inert (f : fstate) : Prop :=
+  ptr f = false /\ stopped (zs f) = true /\ cleaned (zs f) = true /\ hp (zs f) = HNone /\
+  reader (zs f) = false /\ tcu (zs f) = false /\ tcl (zs f) = false /\ tsv (zs f) = false.
+
+(* what a transparent wrapper does with an event *)
+Definition pt_out (e : event) : list output :=
+  match e with
+  | EvServer buf => [OForward; OTerm buf]
+  | EvInput buf => [OServer buf; OInput true]
+  | _ => []
+  end.
+
+Definition no_header (e : event) : Prop :=
+  match e with EvServer buf => detect_zmodem buf = None | _ => True end.
+
+Ltac inert_fin := unfold inert in *; zsimpl;
+  repeat match goal with H : _ /\ _ |- _ => destruct H end; subst;
+  crush; try congruence; zsimpl; repeat split; try reflexivity; try congruence.
+
+Lemma inert_step : forall fixed f e, inert f -> no_header e ->
+  inert (fst (step_gen fixed f e)) /\ snd (step_gen fixed f e) = pt_out e.
+Proof.
+  intros fixed [z p] e Hi Hn. destruct z as [u c1 s1 e1 st cl h rd lp t1 t2 t3 ks gb].
+  destruct e as [buf|buf|r|buf| | |code| | | |]; cbn [no_header pt_out] in *.
+  - unfold inert in *; zsimpl. repeat match goal with H : _ /\ _ |- _ => destruct H end; subst.
+    unf; zsimpl. rewrite Hn. zsimpl. repeat split; reflexivity.
+  - inert_fin.
+  - inert_fin.
+  - inert_fin.
+  - inert_fin.
+  - inert_fin.
+  - inert_fin.
+  - inert_fin.
+  - inert_fin.
+  - inert_fin.
+  - inert_fin.
+Qed.
+
+Lemma inert_run : forall fixed evs f, inert f -> Forall no_header evs ->
+  inert (fst (run_gen fixed f evs)) /\ snd (run_gen fixed f evs) = flat_map pt_out evs.
+Proof.
+  intros fixed. induction evs as [|e evs IH]; intros f Hi Hn; [split; [exact Hi | reflexivity]|].
+  inversion Hn as [|? ? Hn1 Hn2]; subst. cbn [run_gen flat_map].
+  destruct (inert_step fixed f e Hi Hn1) as [H1 H2].
+  destruct (step_gen fixed f e) as [f1 o1]. cbn [fst snd] in *.
+  destruct (IH f1 H1 Hn2) as [H3 H4]. destruct (run_gen fixed f1 evs) as [f2 o2]. cbn [fst snd] in *.
+  split; [exact H3 | rewrite H2, H4; reflexivity].
+Qed.
+
+(* while handleZmodemEvent has not finished its grace sleep nothing else of the session exists *)
+Definition fresh_in_grace (z : zstate) : Prop :=
+  lpend z = true -> hp z = HNone /\ reader z = false /\ tcl z = false /\ tsv z = false /\
+                    (stopped z = false -> tcu z = false).
+
+Lemma fresh_idle : fresh_in_grace (zs idle).
+Proof. intros H; discriminate. Qed.
+
+Lemma fresh_step : forall fixed f e, fresh_in_grace (zs f) -> fresh_in_grace (zs (fst (step_gen fixed f e))).
+Proof.
+  intros fixed [z p] e Hf. destruct z as [u c1 s1 e1 st cl h rd lp t1 t2 t3 ks gb].
+  unfold fresh_in_grace in *; zsimpl.
+  destruct lp.
+  - destruct (Hf eq_refl) as (-> & -> & -> & -> & Ht). clear Hf.
+    destruct e as [buf|buf|r|buf| | |code| | | |]; crush; try congruence; zsimpl;
+      intros Hl; try discriminate; repeat split; try reflexivity; try congruence; auto.
+  - clear Hf.
+    destruct e as [buf|buf|r|buf| | |code| | | |]; crush; try congruence; zsimpl;
+      intros Hl; try discriminate; repeat split; try reflexivity; try congruence; auto.
+Qed.
+
+Lemma fresh_run : forall fixed evs f, fresh_in_grace (zs f) -> fresh_in_grace (zs (fst (run_gen fixed f evs))).
+Proof.
+  intros fixed. induction evs as [|e evs IH]; intros f Hf; [exact Hf|].
+  cbn [run_gen]. pose proof (fresh_step fixed f e Hf) as H1.
+  destruct (step_gen fixed f e) as [f1 o1]. specialize (IH f1 H1).
+  destruct (run_gen fixed f1 evs) as [f2 o2]. exact IH.
+Qed.
+
+(* the remote side gives up (cancel sequence or "cannot open ") while the local side is
+   still in its grace period - before or after the goroutine has begun: the chunk is shown,
+   the cursor restored, and what remains is inert *)
+Lemma grace_cancel_step : forall fixed f buf, ptr f = true -> lpend (zs f) = true -> stopped (zs f) = false ->
+  fresh_in_grace (zs f) -> has_cancel buf = true \/ has_cannot buf = true ->
+  inert (fst (step_gen fixed f (EvServer buf))) /\
+  snd (step_gen fixed f (EvServer buf)) = [OShow; OForward; OTerm buf].
+Proof.
+  intros fixed [z p] buf Hp Hl Hs Hf Hc. destruct z as [u c1 s1 e1 st cl h rd lp t1 t2 t3 ks gb].
+  unfold fresh_in_grace in Hf. zsimpl. subst. destruct (Hf eq_refl) as (-> & -> & -> & -> & Ht).
+  rewrite (Ht eq_refl). unf; zsimpl. rewrite (detect_veto buf Hc).
+  assert (Hv : has_cancel buf || has_cannot buf = true) by (destruct Hc as [-> | ->]; [reflexivity | apply Bool.orb_true_r]).
+  rewrite Hv. zsimpl. unfold inert; zsimpl. repeat split; reflexivity.
+Qed.
+
+Lemma grace_cancel : forall evs0, let f := fst (run idle evs0) in
+  ptr f = true -> lpend (zs f) = true -> stopped (zs f) = false ->
+  forall buf, has_cancel buf = true \/ has_cannot buf = true ->
+  forall evs, Forall no_header evs ->
+    snd (run f (EvServer buf :: evs)) = [OShow; OForward; OTerm buf] ++ flat_map pt_out evs.
+Proof.
+  intros evs0 f Hp Hl Hs buf Hc evs Hn.
+  assert (Hf : fresh_in_grace (zs f)) by (apply (fresh_run true evs0 idle fresh_idle)).
+  unfold run. cbn [run_gen].
+  destruct (grace_cancel_step true f buf Hp Hl Hs Hf Hc) as [H1 H2].
+  destruct (step_gen true f (EvServer buf)) as [f1 o1]. cbn [fst snd] in *.
+  destruct (inert_run true evs f1 H1 Hn) as [H3 H4].
+  destruct (run_gen true f1 evs) as [f2 o2]. cbn [fst snd] in *. rewrite H2, H4. reflexivity.
+Qed.
+
+(* a helper is started by exactly one thing: the end of the grace sleep of a session that
+   is not stopped *)
+Lemma launch_only_live : forall fixed f e, In OLaunchHelper (snd (step_gen fixed f e)) ->
+  e = EvLaunch LaunchOk /\ stopped (zs f) = false /\ lpend (zs f) = true /\ gbegun (zs f) = true.
+Proof.
+  intros fixed [z p] e. destruct z as [u c1 s1 e1 st cl h rd lp t1 t2 t3 ks gb].
+  destruct e as [buf|buf|r|buf| | |code| | | |]; crush; cbn [In]; rewrite ?in_app_iff; cbn [In];
+    intros H; repeat (destruct H as [H|H]; try discriminate); try contradiction;
+    repeat split; try reflexivity;
+    repeat match goal with H : negb (_ && _) = false |- _ =>
+      apply Bool.negb_false_iff in H; apply Bool.andb_true_iff in H; destruct H end;
+    try congruence.
+Qed.
+
+Lemma stopped_sticky : forall fixed f e, stopped (zs f) = true ->
+  stopped (zs (fst (step_gen fixed f e))) = true \/ has_start (snd (step_gen fixed f e)) = true.
+Proof.
+  intros fixed [z p] e Hs. destruct z as [u c1 s1 e1 st cl h rd lp t1 t2 t3 ks gb]. zsimpl. subst.
+  destruct e as [buf|buf|r|buf| | |code| | | |]; crush; try congruence; zsimpl; auto;
+    right; unfold has_start; rewrite ?existsb_app; cbn [existsb]; rewrite ?Bool.orb_true_r; reflexivity.
+Qed.
+
+Lemma has_start_app : forall a b, has_start (a ++ b) = has_start a || has_start b.
+Proof. intros a b. unfold has_start. apply existsb_app. Qed.
+
+(* once a session is stopped - during the grace period or later - no helper is started
+   any more, whatever happens, until the filter starts the next session *)
+Lemma no_launch_after_stop : forall fixed evs f, stopped (zs f) = true ->
+  has_start (snd (run_gen fixed f evs)) = false -> ~ In OLaunchHelper (snd (run_gen fixed f evs)).
+Proof.
+  intros fixed. induction evs as [|e evs IH]; intros f Hs Hn; [intros []|].
+  cbn [run_gen] in *. pose proof (stopped_sticky fixed f e Hs) as H1.
+  pose proof (launch_only_live fixed f e) as H2.
+  destruct (step_gen fixed f e) as [f1 o1]. cbn [fst snd] in *.
+  specialize (IH f1). destruct (run_gen fixed f1 evs) as [f2 o2]. cbn [fst snd] in *.
+  rewrite has_start_app in Hn. apply Bool.orb_false_iff in Hn as [Hn1 Hn2].
+  intros Hin. apply in_app_iff in Hin as [Hin|Hin].
+  - destruct (H2 Hin) as (_ & Hst & _). congruence.
+  - destruct H1 as [H1|H1]; [|congruence]. exact (IH H1 Hn2 Hin).
+Qed.
+
+(* ---- Ctrl-C before the session's goroutine has begun ---- *)
+
+Lemma no_crash : forall fixed f e, ~ In OCrash (snd (step_gen fixed f e)).
+Proof.
+  intros fixed [z p] e. destruct z as [u c1 s1 e1 st cl h rd lp t1 t2 t3 ks gb].
+  destruct e as [buf|buf|r|buf| | |code| | | |]; crush; cbn [In]; rewrite ?in_app_iff; cbn [In];
+    intros H; repeat (destruct H as [H|H]; try discriminate); try contradiction.
+Qed.
+
+Lemma no_crash_run : forall fixed evs f, ~ In OCrash (snd (run_gen fixed f evs)).
+Proof.
+  intros fixed. induction evs as [|e evs IH]; intros f; [intros []|].
+  cbn [run_gen]. pose proof (no_crash fixed f e) as H1.
+  destruct (step_gen fixed f e) as [f1 o1]. specialize (IH f1).
+  destruct (run_gen fixed f1 evs) as [f2 o2]. cbn [snd] in *.
+  intros H. apply in_app_iff in H as [H|H]; auto.
+Qed.
+
+Lemma pinned_agrees : forall f e, (forall buf, e = EvInput buf -> crash_window f buf = false) ->
+  step_pinned f e = step f e.
+Proof.
+  intros f e H. destruct e; try reflexivity. cbn [step_pinned]. rewrite (H buf eq_refl). reflexivity.
+Qed.
+
+Lemma pinned_crashes :
+  snd (run_pinned idle [EvServer hdr_download; EvInput [Consts.zmodem_ctrl_c]]) =
+    [OForward; OTerm hdr_download; OHide; OStart false; OCrash].
+Proof. vm_compute. reflexivity. Qed.
+
+(* the same history on the code with the proposed fix: cancelled and cleaned up *)
+Lemma early_ctrl_c_fixed :
+  snd (run idle [EvServer hdr_download; EvInput [Consts.zmodem_ctrl_c]; EvGraceBegin; EvLaunch LaunchOk; EvCleanupFire]) =
+    [OForward; OTerm hdr_download; OHide; OStart false;
+     OCancelServer; OArm TCleanup; OMsg MStopped; OInput false; OServer Consts.zmodem_cleanup_enter].
+Proof. vm_compute. reflexivity. Qed.
